@@ -277,6 +277,7 @@ def run_property(modname, tier, seed, nproc=None, only=None, verbose=False):
     functions = set()
     exhaustive = True
     skipped_jobs = 0
+    nrep, skipped_replays = {}, [0]
     witness_items, witness_meta = [], []
     viol_items, viol_meta = [], []
     per_job = []
@@ -313,6 +314,12 @@ def run_property(modname, tier, seed, nproc=None, only=None, verbose=False):
             witness_items.append({'harness': job['harness'], 'cfg': job['cfg'], 'inputs': w['inputs']})
             witness_meta.append((i, w))
         for v in r['violations']:
+            # a few counterexamples per (harness, variant, label set) are replayed; replays of hangs cost a watchdog period each
+            vk = (job['harness'], getattr(mod, 'VIOL_KEY', lambda c: '')(job['cfg']), tuple(sorted(set(v['labels']))))
+            nrep[vk] = nrep.get(vk, 0) + 1
+            if nrep[vk] > (2 if 'no-hang' in v['labels'] else 4):
+                skipped_replays[0] += 1
+                continue
             viol_items.append({'harness': job['harness'], 'cfg': job['cfg'], 'inputs': v['inputs']})
             viol_meta.append((i, v))
         per_job.append({'harness': job['harness'], 'cfg': job['cfg'], 'paths': r['paths'],
@@ -457,6 +464,7 @@ def run_property(modname, tier, seed, nproc=None, only=None, verbose=False):
             'unexplored_prefixes': tot['unexplored'],
             'infeasible_paths_discarded': tot['dead'],
             'witness_skipped_float': skipped_float,
+            'counterexamples_not_replayed_duplicates': skipped_replays[0],
             'labels_reached': reached, 'covers': covers,
             'stubs': meta.get('stubs', []),
             'outside_claim': meta.get('outside', []),
